@@ -78,6 +78,20 @@ def main(argv):
                                     "replay-f34 %s" % kind, name="sched")
             elif not cfg["checkInsideLock"]:
                 ck.problems.append(("tie", "lock table says the needsFree() check of %s is outside the lock but the replayed schedule did not double-free" % kind))
+        # (a2) first concurrent use of the library (settings() initialisation), fresh process each time
+        first_reports = {}
+        for rep in range(3 if ck.tier == "quick" else 12):
+            rc, so, se = run_h(ck, hb, ["firstuse", "8"], timeout=300)
+            ck.cov["evaluations"] += 1
+            for l in so.splitlines():
+                if l.startswith("!ORACLE "):
+                    ck.oracle_violation("first use: " + l[8:], "firstuse 8", name="firstuse")
+            if rc != 0 and "result done" not in so:
+                ck.oracle_violation("first-use run crashed (rc=%d)" % rc, "firstuse 8", name="firstuse")
+            for kind, where, blk in tsan_reports(se):
+                first_reports.setdefault((kind, where), ("firstuse 8", blk))
+        for (kind, where), (text, blk) in sorted(first_reports.items()):
+            ck.oracle_violation("ThreadSanitizer: %s in %s" % (kind, " / ".join(where) or "?"), text + "\n" + blk, name="tsan")
         # (b) stress
         runs = [(2, 300, "ccay"), (8, 200, "ccaay"), (4, 60, "ccakky")] if ck.tier == "quick" else \
                [(n, 400, m) for n in (2, 3, 4, 8, 12, 16) for m in ("ccay", "caay", "ccakky", "akky")]
